@@ -26,6 +26,7 @@ import (
 	primevdb "github.com/shutter-network/rolling-shutter/rolling-shutter/keyperimpl/primev/database"
 	servicedb "github.com/shutter-network/rolling-shutter/rolling-shutter/keyperimpl/shutterservice/database"
 	"github.com/shutter-network/rolling-shutter/rolling-shutter/medley/db"
+	snapshotdb "github.com/shutter-network/rolling-shutter/rolling-shutter/snapshot/database"
 )
 
 func repoDir() string {
@@ -82,6 +83,7 @@ func queryPackages() []queryPackage {
 		{"chainobserver/db/sync", corekeyperdb.Definition, func(p *pgxpool.Pool) any { return obssyncdb.New(p) }},
 		{"chainobserver/db/collator", obscollatordb.Definition, func(p *pgxpool.Pool) any { return obscollatordb.New(p) }},
 		{"medley/db", corekeyperdb.Definition, func(p *pgxpool.Pool) any { return db.New(p) }},
+		{"snapshot/database", snapshotdb.Definition, func(p *pgxpool.Pool) any { return snapshotdb.New(p) }},
 	}
 }
 
